@@ -39,7 +39,26 @@ def prove(run: lib.Run):
 # generation with adversarial naming
 # ----------------------------------------------------------------------------------
 
+def diamond_env(rng):
+    """One class reached through two sibling classes, with members of its own: the second occurrence is a
+    deferred forward reference, and its user may be built before the shared class's own routine exists."""
+    env = {"module": coregen.new_module_name("dia"), "defs": {}}
+    env["defs"]["EnA"] = ("enum", [("RED", "1"), ("BLUE", "2")])
+    fl = lambda: rng.choice(["dataclass", "dataclass", "namedtuple", "typeddict", "plain"])
+    wrap = lambda t: rng.choice([t, t, ("seq", "KList", "list[{}]", t), ("union", "Optional", [t, ("none",)]),
+                                 ("map", "KDict", "dict[{}, {}]", ("leaf", "str"), t)])
+    env["defs"][0] = ("class", fl(), "", [("x", ("leaf", "int"), None), ("when", ("leaf", "date"), None),
+                                          ("tag", ("leaf", "EnA"), None)])
+    env["defs"][1] = ("class", fl(), "", [("item", wrap(("name", 0)), None), ("a", ("leaf", "str"), None)])
+    env["defs"][2] = ("class", fl(), "", [("item", wrap(("name", 0)), None), ("b", ("leaf", "Decimal"), None)])
+    env["defs"][3] = ("class", fl(), "", [("left", ("name", 1), None), ("right", ("name", 2), None),
+                                          ("a", ("leaf", "int"), None)])
+    return env
+
+
 def env_fn(rng, gi):
+    if gi % 4 == 1:
+        return diamond_env(rng)
     env = coregen.gen_env(rng, ncls=rng.randint(2, 4), cyclic=(gi % 3 == 2), depth=2)
     return env
 
@@ -241,6 +260,43 @@ def cross_module(fails, stats, rng):
     finally:
         for m in ("verif_c05_xa", "verif_c05_xb", "verif_c05_xc"):
             impl.drop_module(m)
+    # same-named classes in two modules, one reached directly and once more through an alias that lives in
+    # the other module (the second occurrence is deferred)
+    import datetime
+    geo = impl.new_module("verif_c05_geo", "import dataclasses, datetime\n@dataclasses.dataclass\nclass Item:\n"
+                          "    id: int\n    when: datetime.date\n")
+    shop = impl.new_module("verif_c05_shop", "import dataclasses\nimport verif_c05_geo as geo\n"
+                           "from typelib.py.compat import TypeAliasType\n"
+                           "@dataclasses.dataclass\nclass Item:\n    id: str\n    when: str\n"
+                           "GeoItem = TypeAliasType('GeoItem', geo.Item)\n"
+                           "@dataclasses.dataclass\nclass Left:\n    thing: geo.Item\n"
+                           "@dataclasses.dataclass\nclass Right:\n    thing: GeoItem\n"
+                           "@dataclasses.dataclass\nclass Root:\n    left: Left\n    right: Right\n")
+    try:
+        impl.clear_caches()
+        x = {"left": {"thing": {"id": "7", "when": "2020-02-03"}}, "right": {"thing": {"id": "7", "when": "2020-02-03"}}}
+        it = geo.Item(7, datetime.date(2020, 2, 3))
+        exp = shop.Root(shop.Left(it), shop.Right(geo.Item(7, datetime.date(2020, 2, 3))))
+        stats["evaluations"] += 1
+        stats["nontrivial"] += 1
+        for src_name, src in (("mapping", x), ("json", json.dumps(x))):
+            impl.clear_caches()
+            r = unmarshals.unmarshal(shop.Root, src)
+            if not coreprop.same(r, exp):
+                fails.append({"symptom": "member reached through an alias of a same-named class in another module is "
+                                         "converted by the wrong class", "got": repr(r), "expected": repr(exp),
+                              "input": repr(src), "key": "C05-cross-module-alias-" + src_name})
+        impl.clear_caches()
+        w = marshals.marshal(exp, t=shop.Root)
+        expw = {"left": {"thing": {"id": 7, "when": "2020-02-03"}}, "right": {"thing": {"id": 7, "when": "2020-02-03"}}}
+        if w != expw:
+            fails.append({"symptom": "alias of a same-named class in another module marshalled by the wrong class",
+                          "got": repr(w), "expected": repr(expw), "key": "C05-cross-module-alias-m"})
+    except BaseException as e:
+        fails.append({"symptom": "alias of a same-named class in another module: raised", "got": repr(e),
+                      "key": "C05-cross-module-alias-raise"})
+    finally:
+        impl.drop_module("verif_c05_geo"); impl.drop_module("verif_c05_shop")
 
 
 def search(run: lib.Run, broken):
